@@ -26,6 +26,12 @@ type EmbDeep struct {
 	Q uint8 `nbt:"q"`
 }
 
+// EmbDeeper embeds EmbDeep, which embeds EmbA: embedding it puts EmbA's fields three levels down.
+type EmbDeeper struct {
+	EmbDeep
+	R float64 `nbt:"r"`
+}
+
 // MethStr is a string type with a method (like packet.String): still a string.
 type MethStr string
 
@@ -88,6 +94,8 @@ func init() {
 		{Name: "Z", Tag: "z", T: &TD{K: KI64}}, {Name: "X", Tag: "x", T: &TD{K: KI16}}}}}
 	Named["EmbDeep"] = &NamedType{Type: reflect.TypeOf(EmbDeep{}), TD: &TD{K: KStruct, Fields: []FD{
 		{Name: "EmbA", Embedded: true, T: &TD{K: KNamed, Name: "EmbA"}}, {Name: "Q", Tag: "q", T: &TD{K: KU8}}}}}
+	Named["EmbDeeper"] = &NamedType{Type: reflect.TypeOf(EmbDeeper{}), TD: &TD{K: KStruct, Fields: []FD{
+		{Name: "EmbDeep", Embedded: true, T: &TD{K: KNamed, Name: "EmbDeep"}}, {Name: "R", Tag: "r", T: &TD{K: KF64}}}}}
 	Named["MethStr"] = &NamedType{Type: reflect.TypeOf(MethStr("")), TD: &TD{K: KStr}}
 	Named["PlainStr"] = &NamedType{Type: reflect.TypeOf(PlainStr("")), TD: &TD{K: KStr}}
 	Named["PlainInt"] = &NamedType{Type: reflect.TypeOf(PlainInt(0)), TD: &TD{K: KI32}}
